@@ -59,21 +59,11 @@ theorem get_str_pow2_digits (b : Nat) (hb : 2 ≤ b) (hb62 : b ≤ 62) (hp : pow
     (up : List Nat) (hu : Limbs up) (hne : up ≠ []) (htop : up.getLast! ≠ 0) :
     get_str_pow2 b up = digitsOf b (val up) := by
   have hok := (bases_table_ok.1 b (by omega) hb).2 hp
-  have h64 : bigBase b ≤ 64 := by
-    by_contra hcon
-    have : 2 ^ 64 ≤ 2 ^ bigBase b := Nat.pow_le_pow_right (by omega) (by omega)
-    rw [hok.1] at this; omega
-  exact get_str_pow2_of_table hb hok h64 up hu hne htop
+  exact get_str_pow2_of_table hb hok (bigBase_le_64 hb62 hok) up hu hne htop
 
 example : get_str_pow2 8 [0xfedcba9876543210, 0x1f] = digitsOf 8 (0xfedcba9876543210 + 2 ^ 64 * 0x1f) := by
   decide +kernel
 example : get_str_pow2 32 [1, 0, 1] = digitsOf 32 (1 + 2 ^ 128) := by decide +kernel
-
-/-- the power-of-two tables entries fit a limb (used by both power-of-two theorems) -/
-private theorem bigBase_le_64 {b : Nat} (hb62 : b ≤ 62) (hok : Pow2Ok b) : bigBase b ≤ 64 := by
-  by_contra hcon
-  have : 2 ^ 64 ≤ 2 ^ bigBase b := Nat.pow_le_pow_right (by omega) (by omega)
-  rw [hok.1] at this; omega
 
 /-- mpn_bc_set_str (Horner evaluation in chunks of chars_per_limb digits: each chunk is accumulated in one
     limb, then `rp = rp·big_base + chunk` by mpn_mul_1 and mpn_add_1; the last chunk uses base^(its length))
@@ -156,6 +146,10 @@ example : mpz_sizeinbase (2 ^ 64) 16 = 17 ∧ mpz_sizeinbase (2 ^ 64 - 1) 16 = 1
     denominators add up to more than 2^24 (kernel-checked big-number comparisons `2^v < b^u`, `b^p ≤ 2^q`). -/
 theorem sizeinbase_table_ok : ∀ b < 63, 2 ≤ b → pow2P b = false → SibOk b := by decide +kernel
 
+-- non-vacuity: the base-10 certificate, spelled out: 3774669/12539179 > log10(2) and the Farey neighbour below c
+example : sibHint 10 = (97879, 325147, 1936274, 6432163, 3774669, 12539179) ∧ 3774669 * 6432163 = 1936274 * 12539179 + 1 ∧
+    2 ^ 24 < 6432163 + 12539179 := by decide +kernel
+
 /- FULL STATEMENT (the property as written): for every x ≠ 0 and every base 3..62 that is not a power of
    two, `mpz_sizeinbase x b` is the digit count of |x| or one more.
    It is NOT provable — and for the source as pinned it was false: with the table constant below
@@ -196,5 +190,7 @@ theorem get_str_fits_partial (base : Int) (hb : LegalOutBase base) (x : Int) (hb
     | false =>
       have := sizeinbase_bound_partial _ hb2.1 hb2.2 hp x hx hbits
       omega
+
+example : (getStrSpec (-10) (-999)).length + 1 = 5 ∧ mpz_sizeinbase (-999) 10 + 2 = 6 := by decide +kernel
 
 end Mpir.Radix
